@@ -692,7 +692,10 @@ func (t *tr) vals(x ssa.Value) []string {
 		return t.constTerms(c)
 	case *ssa.Global:
 		n := "glob_" + sanitize(c.Pkg.Pkg.Path()+"_"+c.Name())
-		fmt.Fprintf(&t.decls, "(declare-const %s Int)\n(assert (< %s 0))\n", n, n)
+		if _, done := t.heapSorts["@decl:"+n]; !done {
+			t.heapSorts["@decl:"+n] = "x"
+			fmt.Fprintf(&t.decls, "(declare-const %s Int)\n(assert (< %s 0))\n", n, n)
+		}
 		elem := c.Type().(*types.Pointer).Elem()
 		t.val[x] = []string{fmt.Sprintf("(mkloc %d %s 0)", t.eng.tag(elem), n)}
 		return t.val[x]
@@ -709,8 +712,8 @@ var funcSyms sync.Map
 
 func (t *tr) funcSym(f *ssa.Function) string {
 	n := "fn_" + sanitize(f.String())
-	key := t.fnKey + "|" + n
-	if _, ok := funcSyms.LoadOrStore(key, true); !ok {
+	if _, done := t.heapSorts["@decl:"+n]; !done {
+		t.heapSorts["@decl:"+n] = "x"
 		// function symbols are positive distinct integers: id from tag registry of a pseudo type name
 		id := t.eng.tag(types.NewNamed(types.NewTypeName(token.NoPos, nil, "func:"+f.String(), nil), types.Typ[types.Int], nil))
 		fmt.Fprintf(&t.decls, "(define-fun %s () Int %d)\n", n, 1000000+id)
